@@ -720,32 +720,50 @@ for _pid, (_src, _defs, _q, _t, _ml) in GFUZZ.items():
 
 # ---------------------------------------------------------------------------------------------- later additions to the case rules
 RULE_ADDENDA = {
+    "C19": " ; a word operand equal to one of the object's own words is handed over as that word (by reference into its storage)",
+    "C10": " ; every real with precision <= 2 (one in four otherwise; one in 32 inside the enumerations) is printed again into a stream that had held 420 '9's and 420 units of another digit and was cleared (stale storage behind the content)",
+    "C08": " ; one case in three (alias=2) has an Undefined value and a pointer to it among the pointer targets; enumerated: arrays of two strings of 0.7..16 Mi units (6 pairs of lengths x escape/none x 3 widths), text compared unit for unit and parsed back",
+    "C05": " ; enumerated through the all-or-nothing harness: texts nested 250..2000 levels (22 depths x 4 shapes) - every sampled proper prefix, trailing units and 14 malformed cores at the deepest level are rejected whole",
     "C01": "; two cases in three build the value with aimed extras (a member holding the template's own tail plus one unit, a storage-less string, a short string "
            "next to one that continues with NULs) and one template in twelve of those is an 'aimed comparison'; boundary classes: 250-261 <if> levels around "
-           "loops with sort / group, attributes quoted by operator characters",
+           "loops with sort / group, attributes quoted by operator characters"
+           " ; half of the cases (gen2=2) turn one template in eight into an 'expression soup': 2-5 operands drawn from 64-bit limits, variables of every kind, text and text that starts like a number (2x, 1 0, 1.5.2, 0x1g), between random operators, inside {math:}, an inline if, an <if> or a loop",
     "C02": "; one case in three writes phrases and text runs with look-alike units (bytes above 0x7F = U+0100|c in the 2- and 4-byte builds: '{', '}', '<', ':', "
-           "digits as low bytes); one deep case in seven nests beyond 255 open tags; one build runs with QENTEM_AUTO_ESCAPE_HTML=0",
+           "digits as low bytes); one deep case in seven nests beyond 255 open tags; one build runs with QENTEM_AUTO_ESCAPE_HTML=0"
+           " ; one case in four (alias=2) names the grouping member 'year' and gives objects a member 'pear' (same hash) in any slot, writes words that start like a tag (<iframe ...>, <loops>, <elsewhere>, <ifx>) as text runs and names loop values by the first letters of root members (n, s, i, p, f ... next to num, str, items)",
     "C03": "; the parsed form reaches the renderer directly, through a caller-owned tag cache, through a copy-constructed cache or through a cache copy-assigned over "
-           "another template's tags (chosen by the template text)",
-    "C04": "; one case in forty nests parentheses 254..1000 deep (left-nested, right-nested, redundant pairs, alternating)",
+           "another template's tags (chosen by the template text)"
+           " ; an unresolved {var:NAME} and a loop key are also printed as the sub tag of a {svar:} (phrase ({0}) / {0})",
+    "C04": "; one case in forty nests parentheses 254..1000 deep (left-nested, right-nested, redundant pairs, alternating)"
+           " ; two cases in three (gen2=1) also draw decimals a hair away from a whole number (3.0000000000001, 1.9999999999999, 3.0000000000000004 ...) as literals and exponents",
     "C06": "; enumerated: strings of 255 .. 1,048,577 units with an escape at the start / middle / end / nowhere, as array element, member value and member key, "
            "3 widths (468 documents), decoded content compared unit for unit; one case in three draws strings with look-alike code points (U+0100|c: one UTF-16/32 unit whose low byte is a quote, backslash, bracket, control ...) and "
-           "numerals thousands of characters long whose exponent compensates their own zeros, or 17-digit spellings of doubles from the least-slack binades",
-    "C07": "; one case in three draws look-alike code points and unpaired low-surrogate escapes (legal by the grammar) into the strings",
+           "numerals thousands of characters long whose exponent compensates their own zeros, or 17-digit spellings of doubles from the least-slack binades"
+           " ; half of the cases parse a rejected text (8 shapes with a broken string after an escape) with one caller-owned scratch stream first, then the document twice with the same stream",
+    "C07": "; one case in three draws look-alike code points and unpaired low-surrogate escapes (legal by the grammar) into the strings"
+           " ; per document: one of its strings as the whole text and every proper prefix of it; up to three \\u escapes with one digit replaced by a non-hex unit, and cut short after 0-3 digits followed by the string's end, filler and the rest of the text again; six times the first half of a surrogate pair in front of a closing quote followed by text that makes the whole invalid without the escape (reference parser decides); enumerated: texts nested 250..2000 levels (see C05)",
     "C09": "; near-tie class (midpoints between adjacent doubles cut to 17-21 digits, just below and just above), numerals whose exponent compensates their length "
            "(up to 100,000 zeros), terminators that are non-ASCII units with an ASCII low byte in the 2- and 4-byte runs",
-    "C12": "; the marker hunt of C13 (member names whose hash equals the removed-slot marker) runs here as well, since an object is a hash array; two cases in three also merge sized-but-empty temporaries (+= / Merge, copy / move) and assign a container from one of its own descendants (copy / move)",
-    "C13": "; two cases in three let Insert(key, const Value &) take its value from an entry of the same table",
+    "C12": "; the marker hunt of C13 (member names whose hash equals the removed-slot marker) runs here as well, since an object is a hash array; two cases in three also merge sized-but-empty temporaries (+= / Merge, copy / move) and assign a container from one of its own descendants (copy / move)"
+           " ; half of the cases (gen2=2) also build reserved arrays (room 3..11) whose elements - some of them arrays that lose an element - are written into the room and are then mostly compressed, and append one of an object's own members to the object (copy and move); the quick tier also runs a build without the growth hook",
+    "C13": "; two cases in three let Insert(key, const Value &) take its value from an entry of the same table"
+           " ; half of the cases (gen2=2) add to the full-hash theme a stem of 64 / 96 / 128 units and its one-unit variants at the outer positions whose hash is confirmed equal",
     "C14": "; two cases in three append copies of own elements (a += a[i], Insert(a[i])) and compare long near-equal operands (16-75 units, one differing unit anywhere) "
-           "and views sharing their start, with the ordering operators against a lexicographic model",
+           "and views sharing their start, with the ordering operators against a lexicographic model"
+           " ; twice per case (1 in 8 of the gen2 cases) a StringStream gets a range from a buffer mapped k*2^32 units (+ less than its length) away from its own block while it has to grow, and a String is assigned / appended from its own tail as a C string; the quick tier also runs a sanitizer-free build",
     "C15": "; every string pair is also compared widened to 2- and 4-byte units, stretched to 16-80 units by a common prefix / suffix, and (when one is a prefix of the "
-           "other) as views of one buffer",
-    "C16": "; two cases in three may start with a nest of 9-13 loops over a two-element array",
+           "other) as views of one buffer"
+           " ; enumerated 'big-sorts': 1025..5000 items in six shapes (random, sorted, reversed, equal, few distinct, organ pipe) in Array<unsigned>, a Value array and the keys of a hash array, both directions, and 20000 sorted / reversed / equal items on a thread with a 512 KiB stack",
+    "C16": "; two cases in three may start with a nest of 9-13 loops over a two-element array"
+           " ; the group-by harness (C18) runs here too: the grouping is read again after its source has been overwritten and released",
     "C17": "; one case in three holds containers behind pointer values, one in three gives the root object 24 more members (tables above 16 items); for those only purity "
-           "is decided, not the expansion; the value text is taken before the first render",
+           "is decided, not the expansion; the value text is taken before the first render"
+           " ; one renderer object and one cache render a copy of the value three times while its members are taken out and put back in reverse order / replaced in between; Template::Render with a shared, already used tag cache runs on 3 threads for the template and for the template behind an unclosed <loop> (parses to nothing)",
     "C18": "; one case in three takes numeric group values from the table of numbers that share a 64-bit pattern across kinds; the destination of GroupBy is pre-filled in "
-           "seven ways (fresh, earlier groupings, array, string, number, object)",
-    "C20": "; one generated case in eighty and a thin slice of the enumeration put 4,000-66,000 units in front of the escape",
+           "seven ways (fresh, earlier groupings, array, string, number, object)"
+           " ; one case in four (twins=2) names the grouping member 'year' and the others 'pear', 'dear', 'fear' and a name whose hash is the forced top bit only, and uses two such names as group values; the grouping is read again (also through a copy) after its source was overwritten and released",
+    "C20": "; one generated case in eighty and a thin slice of the enumeration put 4,000-66,000 units in front of the escape"
+           " ; one generated case in five and one enumerated scalar in thirteen put the escape into a run of 2-9 adjacent escapes (D000-D7FF next to surrogate pairs, astral, E000.., ASCII)",
 }
 for _pid, _t in RULE_ADDENDA.items():
     SPECS[_pid]["rule"] += _t
